@@ -556,7 +556,7 @@ func (lc *lockCase) check() {
 	}
 }
 
-var lastCasReplyLost bool
+var lastCasReplyLost, definitiveCas bool
 
 func (lc *lockCase) replySuffix() string {
 	if lc.replyLostInTenure {
@@ -762,6 +762,15 @@ func (lc *lockCase) perform(a action) {
 				lc.faulted = true
 			}
 			lc.ev(fmt.Sprintf("rel cas %s %s", c.ver, out))
+			armedBefore := timeout.VerifHeapLen()
+			definitiveCas = out == "definitive"
+			defer func(ver string) {
+				// a renewal that was told ErrNotExist / ErrConflict belongs to a tenure that is over: it changes nothing
+				// and ARMS nothing (only this one call was released: nobody else can have armed a timer meanwhile)
+				if definitiveCas && !lc.failed && timeout.VerifHeapLen() > armedBefore {
+					lc.ctx.R.Quiet("mon C05-finished-tenure-arms-nothing", fmt.Sprintf("the renewal of version %s was answered with a definitive error (record gone or replaced), yet afterwards %d more timer(s) are armed: the renewal chain of a finished tenure goes on (%s)", ver, timeout.VerifHeapLen()-armedBefore, lc.describe()))
+				}
+			}(c.ver)
 			c.release <- d
 		}
 		// wait until the released call has left the store
